@@ -507,6 +507,7 @@ func (g *G) varRef(value string) string {
 	}
 	g.nvar++
 	name := fmt.Sprintf("GEN_VAR_%d", g.nvar)
+	g.m.Vars = append(g.m.Vars, name)
 	switch g.R.Intn(4) {
 	case 0:
 		g.m.Env[name] = value
